@@ -2,7 +2,7 @@
    - the MemFS model (MemFS.v / MemFile.v: Lstat, Stat, ReadDir, OpenFile+Readdirnames) - the
      implementation side;
    - the Linux specification model (Posix.v: lstat/stat, os.ReadDir, open+getdents) - the reference side;
-   - BasePathFS over an instance (paths translated on the way in, Glob's matches on the way out);
+   - BasePathFS over an instance (paths translated on the way in);
    and the callback policies "return X at visit i" the correspondence run enumerates. *)
 From Avfs Require Import Base PathModel PathMatch MemFS MemFile World Posix Walk Glob.
 Set Implicit Arguments.
@@ -100,28 +100,19 @@ Section BasePath.
   Variable P : prims E.
   Variable bp : str.               (* vfs.basePath: absolute and clean *)
 
-  (* basepathfs_cfg.go ToBasePath (POSIX flavour; a relative path is passed on unchanged) *)
-  Definition to_base (path : str) : str :=
-    match path with
-    | [] => bp
-    | c :: rest =>
-        if N.eqb c SLASH then (match rest with [] => bp | _ => bp ++ path end) else path
-    end.
-
-  (* FromBasePath: Join("", path[len(basePath):], "/") *)
-  Definition from_base (path : str) : str := join Linux [[]; skipn (length bp) path; [SLASH]].
+  (* basepathfs_cfg.go ToBasePath for an absolute path (POSIX flavour): Join(basePath, Clean(path)).
+     A relative path is first made absolute with the base file system's working directory expressed in
+     the BasePathFS namespace; the streams of C14 use absolute operands (relative ones are C10's). *)
+  Definition to_base (path : str) : str := join Linux [bp; clean Linux path].
 
   Definition bp_prims : prims E :=
     {| p_lstat := fun p => p_lstat P (to_base p); p_stat := fun p => p_stat P (to_base p);
        p_read_dir := fun p => p_read_dir P (to_base p); p_dir_names := fun p => p_dir_names P (to_base p);
        p_match := p_match P; p_not_exist := p_not_exist P |}.
 
-  (* BasePathFS.Glob: baseFS.Glob(ToBasePath(pattern)), every match through FromBasePath *)
-  Definition bp_glob (pattern : str) : gres :=
-    match glob P (to_base pattern) with
-    | GOk l => GOk (map from_base l)
-    | r => r
-    end.
+  (* BasePathFS.Glob = avfs.Glob(vfs, pattern): the generic Glob over the translating primitives; the matches
+     are built in the BasePathFS namespace and need no translation back *)
+  Definition bp_glob (pattern : str) : gres := glob bp_prims pattern.
 End BasePath.
 
 (* ---- callback policies of the correspondence run ---------------------------------------------- *)
